@@ -214,6 +214,32 @@ def make_items(rng, n_items, faults=None):
     return items
 
 
+class _Odd(Exception):
+    """an exception whose str() itself is unusual (non-ASCII, braces, newline)"""
+
+    def __str__(self):
+        return "odd {0} %s \n \u00e9"
+
+
+def _failure(item, where):
+    """the exception a failing callback raises: the property says *any* exception — with a message, without arguments, with
+    non-string arguments, an `assert`, a `StopIteration`, a `KeyError`, a custom class"""
+    kind = item["id"] % 7
+    if kind == 0:
+        return RuntimeError(f"callback failed {where}")
+    if kind == 1:
+        return ValueError()                      # no arguments at all
+    if kind == 2:
+        return KeyError(("tuple", 3))            # non-string argument
+    if kind == 3:
+        return AssertionError()                  # what a bare `assert cond` raises
+    if kind == 4:
+        return StopIteration()
+    if kind == 5:
+        return _Odd()
+    return OSError(5, "Input/output error")
+
+
 META = {}  # id(payload) -> descriptor; the payload that travels through the queue is a plain list (possibly EMPTY, i.e. falsy)
 
 
@@ -222,12 +248,12 @@ def callback(payload, *sketches, **kwargs):
     if item["fault"] == "die":
         raise WorkerDied()
     if item["fault"] == "before":
-        raise RuntimeError("callback failed before touching the sketches")
+        raise _failure(item, "before touching the sketches")
     for s in sketches:
         for k, v in item["ops"]:
             s.add(k, v)
     if item["fault"] == "after":
-        raise RuntimeError("callback failed after updating the sketches")
+        raise _failure(item, "after updating the sketches")
     return item["ret"]
 
 
@@ -314,7 +340,8 @@ def check_run(res, pid_set, items, n_workers, got, kw, acts, combo, label, as_ge
         return ops
     crashes = [c for c in ctx.crashes if not (c[0] == "_fill_queue" and "UnboundLocalError" in c[1] and not items)]
     if crashes:
-        res.oracle_failures.append({"pid": "C08", "what": f"a process crashed inside parallel_add: {ctx.crashes[:2]} ({label})", "case": desc})
+        res.oracle_failures.append({"pid": "C08" if not any(it["fault"] for it in items) else "C19",
+                                    "what": f"a process crashed inside parallel_add: {ctx.crashes[:2]} ({label})", "case": desc})
     # what every item contributes
     eff = [it for it in items if it["fault"] != "before"]
     total = sum(v for it in eff for _, v in it["ops"])
